@@ -639,6 +639,11 @@ def rule_c16_r3(model: Model) -> RuleResult:
     # __eq__ / ordering: outcome formulas (pane_sa.outcomes) compared, as Boolean functions, with the specification
     from ..outcomes import Outcomes, at_first, equivalent, exists, f_and, f_not, f_or, var, variables, TRUE as O_TRUE, FALSE as O_FALSE
 
+    # module-level helpers that read the origin marker (which namespace they read it from is decided by C16-R6 / C16-R13)
+    origin_helpers = '|'.join(sorted(re.escape(g_.name) for g_ in model.all_functions()
+                                     if g_.module.name == 'pane.classes' and g_.cls is None and g_.parent is None
+                                     and isinstance(g_.node, ast.FunctionDef) and '__origin__' in unparse(g_.node) and g_.name != '_make_subclass')) or 'NO_SUCH_HELPER'
+
     def roles(fields_param: str) -> t.Callable[[str], str]:
         el = r'ELEM\((?:FREE:)?' + re.escape(fields_param) + r'\)'
         table = [
@@ -649,7 +654,8 @@ def rule_c16_r3(model: Model) -> RuleResult:
             (r"^\$other\.__class__\.__dict__\.get\('__origin__', \$other\.__class__\) == self\.__class__\.__dict__\.get\('__origin__', self\.__class__\)$",
              'ORIGIN_EQ'),
             # ... or through a helper of the module that follows the chain of own-namespace origin markers (decided by C16-R6 / C16-R13)
-            (r"^pane\.classes\.\w*origin\w*\(\$other\.__class__\) == pane\.classes\.\w*origin\w*\(self\.__class__\)$", 'ORIGIN_EQ'),
+            (r"^pane\.classes\.(" + origin_helpers + r")\((?:\$other(?:\.__class__)?|type\(\$other\))\) == pane\.classes\.\1\((?:self(?:\.__class__)?|type\(self\))\)$",
+             'ORIGIN_EQ'),
             (r'^\$other\.__class__ == self\.__class__$', 'CLASS_EQ'),
             (r'^type\(\$other\) == type\(self\)$', 'CLASS_EQ'),
             (r'^type\(\$other\) is type\(self\)$', 'CLASS_EQ'),
